@@ -25,3 +25,19 @@ pub fn t_parse_word() {
     let line = [&w2[w], " ", &s].concat();
     let _ = Request::parse(&line);
 }
+pub fn t_cluster2() {
+    use crate::harness::cluster::*; use crate::harness::common::*;
+    let mut cl = mk_cluster(1);
+    let (mut admin, mut arx) = admin_client(&cl.nodes[0].dbs);
+    let r = crate::process_request::process_request("create-db d tok", &cl.nodes[0].dbs, &mut admin);
+    vsym::check("create.ok", is_ok(&r));
+    let st = cl.settle(60, false);
+    vsym::check("settled", st.is_some());
+    vsym::check("replicated-db", cl.nodes[1].dbs.has_db("d"));
+    let (mut c, mut rx) = db_client(&cl.nodes[0].dbs, "d");
+    crate::process_request::process_request("set k v1", &cl.nodes[0].dbs, &mut c);
+    let st = cl.settle(60, false);
+    vsym::check("settled2", st.is_some());
+    vsym::check("replicated-key", match peek(&cl.nodes[1].dbs, "d", "k") { Some(v) => v.value == "v1", None => false });
+    vsym::tag_i("msgs", cl.inter_node_messages() as i64);
+}
